@@ -350,6 +350,7 @@ Section Proofs.
     - (* LReplayEntry *) destruct (append_ctl _ _ _ _ E2) as [A1 [A2 [A3 [A4 [A5 A6]]]]].
       apply cs_append; unfold same3; cbn; auto.
     - apply cs_same; unfold same3; cbn; auto.
+    - (* LReplayFileKeep *) apply cs_same; unfold same3; cbn; auto.
     - apply cs_same; unfold same3; cbn; auto.
     - apply cs_restart; reflexivity.
   Qed.
